@@ -83,9 +83,9 @@ static pool_t *create_pool(const mem_pool_t *mem)
 
 	ptr = (unsigned char *)(pool->bitmap + mem->bitmap_count);
 
-	if (((uintptr_t)ptr) % mem->obj_size) {
+	if (((size_t)(ptr - (unsigned char *)pool)) % mem->obj_size) {
 		ptr += mem->obj_size;
-		ptr -= ((uintptr_t)ptr) % mem->obj_size;
+		ptr -= ((size_t)(ptr - (unsigned char *)pool)) % mem->obj_size;
 	}
 
 	pool->data = ptr;
@@ -117,6 +117,12 @@ mem_pool_t *mem_pool_create(size_t obj_size)
 
 	mem->obj_size = obj_size;
 	mem->pool_size = DEF_POOL_SIZE;
+
+	if (count == 0) {
+		count = 1;
+		mem->pool_size = pool_size_from_bitmap_count(count, obj_size);
+	}
+
 	mem->bitmap_count = count;
 	return mem;
 }
@@ -209,8 +215,8 @@ void mem_pool_free(mem_pool_t *mem, void *ptr)
 	i = idx / (sizeof(unsigned int) * CHAR_BIT);
 	j = idx % (sizeof(unsigned int) * CHAR_BIT);
 
-	assert((it->bitmap[i] & (1 << j)) != 0);
+	assert((it->bitmap[i] & (1U << j)) != 0);
 
-	it->bitmap[i] &= ~(1 << j);
+	it->bitmap[i] &= ~(1U << j);
 	it->obj_free += 1;
 }
